@@ -229,7 +229,32 @@ def run(R):
             missing = argnames - deps - {'self'}
             if missing:
                 bad.append((k, missing))
-        if bad:
+        # the key must be built from the same definitions of the arguments that the call sees (not from a value that is defaulted later)
+        stale = []
+        for (n, k) in keys:
+            for a in sorted(argnames - {'self'}):
+                used = [(nd_, x) for (nd_, e_) in [(n, k)] for x in ast.walk(e_) if isinstance(x, ast.Name)]
+                # follow one level of local copies of the key expression
+                kd = {d.id for (d, _) in gs.cfg.defs_reaching(tn, a)}
+                todo = [(n, x) for x in ast.walk(k) if isinstance(x, ast.Name)]
+                seen_ = set()
+                while todo:
+                    (nd_, nm_) = todo.pop()
+                    if nm_.id == a:
+                        here = {d.id for (d, _) in gs.cfg.defs_reaching(nd_, a)}
+                        if here != kd:
+                            stale.append((a, k))
+                        continue
+                    if nm_.id in argnames:
+                        continue        # another argument: judged in its own round, not followed into its definitions
+                    for s_ in gs.sources(nd_, nm_):
+                        if s_.kind == 'expr' and id(s_.expr) not in seen_:
+                            seen_.add(id(s_.expr))
+                            todo += [(s_.node, x) for x in ast.walk(s_.expr) if isinstance(x, ast.Name)]
+        if stale and not bad:
+            R.fail('C15.CKY.1', inst, gs.qual, stale[0][1], f'the cache key is computed from `{stale[0][0]}` before it has its final value (the value passed to '
+                   'tpm.get_signer is assigned later): signers requested with the default end up cached under another key', site(gs, stale[0][1]))
+        elif bad:
             R.fail('C15.CKY.1', inst, gs.qual, stores[0].ast if stores else gets[0], f'the cached signer is keyed by `{ast.unparse(bad[0][0])}`, which does '
                    f'not depend on {sorted(bad[0][1])}: a different key with the same key locator gets the other key\'s signer', site(gs, bad[0][0]))
         else:
@@ -344,6 +369,12 @@ def run(R):
                                 body = ast.unparse(h.ast)
                                 if re.search(r'(?i)DELETE FROM %s' % ins.table, body) and any(isinstance(x, ast.Raise) for x in ast.walk(h.ast)):
                                     comp = True
+                                    # the failed step may have left uncommitted rows: they must be rolled back before the handler commits
+                                    hcalls = [x for x in ast.walk(h.ast) if isinstance(x, ast.Call) and isinstance(x.func, ast.Attribute)]
+                                    names_ = [x.func.attr for x in sorted(hcalls, key=lambda x: (x.lineno, x.col_offset))]
+                                    if 'commit' in names_ and ('rollback' not in names_ or names_.index('rollback') > names_.index('commit')):
+                                        probs.append(('the clean-up after a failed step commits without rolling back first: rows half-written by the failed '
+                                                      'step are committed under the deleted entry', h.ast))
                         if not comp:
                             probs.append((f'the row inserted into `{ins.table}` is committed before {qq.rsplit(".", 1)[1]}() runs; if that step fails the '
                                           'half-created entry stays and a retry skips the failed step', c))
